@@ -46,7 +46,11 @@ def concretise_probes(probe):
     for i in range(k):
         a, o = offs[i], probe[i]
         if o == "bad_lfanew":
-            lf = 0
+            # every way of being out of range: zero (with a machine word where a header at distance 0 would have it), negative,
+            # the limit itself, far beyond
+            lf = [0, 0, -16, 1024, 0x7FFFFFF0][(a // 4 + len(probe) + sum(map(len, probe))) % 5]
+            if lf == 0:
+                struct.pack_into("<H", f, a + 4, 0x8664 if (a // 4) % 2 else 0x014C)
         elif o == "eof_hdr":
             lf = L - a - 14
         else:
